@@ -123,6 +123,11 @@ class Check:
                 out.add("FreeVar")
             if requantifies(f):
                 out.add("Requantified")
+            if case.get("net"):
+                from .props import net_props
+                known = set(net_props(case["net"]))
+                if any(x[0] == "T" and x[1] == "P" and x[2] not in known for x in gen.subtrees(f)):
+                    out.add("UnknownProp")
             if gen.quant_depth(f) > case["k"]:
                 out.add("VarSupport")
             w, d = gen.labels_of(f)
